@@ -43,7 +43,11 @@ URI_FIXED = ["dummy:a", "dummy:track:1", "file:///music/a%20b.mp3", "http://exam
              "spotify:track:6rqhFgbbKwnb9MLmUQDhG6", "local:track:ä/ö.flac", "yt:https://youtu.be/x", "x-y+z.1:opaque",
              "file:///x y", "HTTP://UPPER/", "a:", "dummy:with,comma", "dummy:☃", "mms://h/p", "file:///m3u/#EXTINF"]
 URI_BAD = ["relative/path.mp3", "noscheme", " dummy:lead", "dummy:trail ", "#dummy:x", "dum\nmy:x", "dummy:x\r", "",
-           "http://[bad", "1abc:x", ":x", "/abs/file.mp3", "dummy:x\ny:z", "du\tmmy:x", "\x01dummy:x", "é:x", "-a:b"]
+           "http://[bad", "1abc:x", ":x", "/abs/file.mp3", "dummy:x\ny:z", "du\tmmy:x", "\x01dummy:x", "é:x", "-a:b",
+           # local paths (no scheme): joined with base_dir, normalised, percent-encoded
+           "a/../b.mp3", "../up.mp3", "./x/./y.mp3", "//double/root.mp3", "///triple.mp3", "dir/", "é/ü ö.flac",
+           "a b/c%d.mp3", "x/..", "..", "/", "a//b", ".hidden", "name.with.dots.mp3", "a?b#c.mp3", "../../../etc/passwd",
+           "trailing.", "日本/曲.ogg", "~user/x", "a/b/../../../c"]
 TNAME_FIXED = [None, None, "Song", "T, 1", "a,b,c", "Ω mega", "#hash", "x" * 300, "日本語", "a:b", "dots..."]
 TNAME_BAD = ["", " lead", "trail ", "two\nlines", "cr\rx", " em", "x ", "\t"]
 
@@ -138,6 +142,7 @@ HAND_TEXTS = [
     "#EXTINF:-1,N\n#EXTINF:-1,M\ndummy:a\ndummy:b\n", "song.mp3\n#EXTINF:-1,Given\nsub/dir/song2.mp3\n/abs/x.ogg\n",
     "#EXTINF:-1,N\n# other\n\ndummy:a\n", "dummy:a\x0bdummy:b\x1cdummy:c\n", "﻿#EXTM3U\ndummy:a\n",
     "#EXTINF:-1 no comma\ndummy:a\n", "http://[::1]/x\nhttp://[bad/x\n",
+    "a/../b.mp3\n../up.mp3\n//double/root.mp3\n///triple\n/\n..\n./x/./y\n#EXTINF:-1,Named\nrel dir/é.flac\n.hidden\ntrailing.\n",
 ]
 
 
@@ -190,27 +195,36 @@ def text_stage(chk):
         texts.append(
             COQ_IMPORTS
             + f"Definition raises : list str := {g_r}.\nDefinition locals : list (str * item) := {g_l}.\n"
+            + f"Definition basedir : str := {g_str(base_dir)}.\n"
             + "Definition cases : list (option (list item) * str * option (list item) * bool) :=\n " + g_list(its) + ".\n"
             + "Definition ok (c : option (list item) * str * option (list item) * bool) : bool :=\n"
               "  let '(items, text, loaded, safe) := c in\n"
               "  match items with Some its => str_eqb (dump_items its) text &&\n"
               "      Bool.eqb (forallb (fun it => line_safe_b it && negb (mem_str (fst it) raises)) its) safe\n"
               "                 | None => true end &&\n"
-              "  match load_items raises locals text, loaded with\n"
+              "  match load_items raises (local_table basedir (ulines text)) text, loaded with\n"
               "  | Ok l, Some l' => items_eqb l l'\n  | Raise LValueError, None => true\n  | _, _ => false end.\n"
-            + "Eval vm_compute in mismatches ok cases.\n")
+            + "Eval vm_compute in mismatches ok cases.\n"
+            + "Eval vm_compute in mismatches (fun kv : str * item => item_eqb (local_ref basedir (fst kv)) (snd kv)) locals.\n")
     ok = True
+    ok_local = True
     for shard, (rc, out) in zip(shards, vlib.coq_eval_many(AREA, texts, jobs=14)):
-        bad = vlib.parse_nat_list(out)
+        both = vlib.parse_all_lists(out)
+        bad = both[0] if len(both) == 2 else None
         if rc != 0 or bad is None:
             ok = False
             chk.corr_failure("m3u_text", {"coq": "evaluation failed"}, out[-1500:])
             continue
+        if both[1]:
+            ok_local = False
+            chk.corr_failure("m3u_local_ref", {"table_entries": both[1][:5], "shard_texts": [t for _, t, _, _ in shard if "/" in t][:3]},
+                             "local_ref (model of basedir / line -> file: URI, default name) differs from the translator")
         for i in bad:
             ok = False
             items, text, loaded, s = shard[i]
             chk.corr_failure("m3u_text", {"items": items, "text": text, "impl_loaded": loaded, "py_safe": s})
     chk.obligation("corr:m3u_text", "correspondence", ok)
+    chk.obligation("corr:m3u_local_ref", "correspondence", ok_local)
 
 
 # ---------------------------------------------------------------------------- 2. provider layer
